@@ -277,6 +277,7 @@ class World:
         self.e = {}
         self.csys_by_obj = {}
         self.fav = None
+        self.accessor_results = set()
         self.verdicts = []      # (verdict operation, object) pairs issued so far
         self.recent_atol = 0
 
@@ -399,7 +400,7 @@ def build_aopt(spec, birth_atol=None):
         eps = birth_atol / 10.0
     return ProjectedGradientDescentBacktrackingOption(
         on_algo_eq_constraint=spec["eq"], on_algo_ineq_constraint=spec["ineq"], mode_proj_order=spec["order"],
-        max_iteration_proj_physical=spec["maxit"], max_iteration_optimization=spec.get("maxopt", 25),
+        max_iteration_proj_physical=spec["maxit"], max_iteration_optimization=spec.get("maxopt", 14),
         mode_stopping_criterion_gradient_descent="sum_absolute_difference_variable",
         num_history_stopping_criterion_gradient_descent=1, eps=eps)
 
@@ -514,6 +515,13 @@ class Raised:
         self.e = e
 
 
+class Repeat:
+    """result of an operation that issues the same calls twice: both answers must coincide"""
+
+    def __init__(self, first, second):
+        self.first, self.second = first, second
+
+
 def call(fn):
     try:
         return fn()
@@ -547,6 +555,7 @@ def _var_meta(o, W):
 QOPS = ("state", "povm", "gate", "mprocess")
 # operations that re-configure re-used service objects: role -> operand position
 STATEFUL = {"estimate": {"est": 0, "loss": 3, "lopt": 4, "algo": 5, "aopt": 6}, "loss_eval": {"loss": 0, "lopt": 2},
+            "loss_repeat": {"loss": 0, "lopt": 2},
             "algo_proj": {"algo": 0, "aopt": 2}}
 # unary operations on q-operations: name -> (kinds, fn(o, p), result role)
 UNARY = {
@@ -694,6 +703,32 @@ def run_op(op, get, W, atol_state):
         if which == 1:
             return matrix_util.calc_covariance_mat(matrix_util.replace_prob_dist(v), 10 + p["i"] % 90)
         return matrix_util.calc_covariance_mat(v, 10 + p["i"] % 90)
+    if k == "derive_roundtrip":
+        o = get(a[0])
+        return o.generate_from_var(o.to_var() if p["i"] % 2 else o.to_var().copy())
+    if k == "set_zero":
+        get(a[0]).set_zero()
+        return None
+    if k == "loss_repeat":
+        loss, qt, lopt, data = get(a[0]), get(a[1]), get(a[2]), get(a[3])
+        loss.set_from_standard_qtomography_option_data(qt, lopt, data, True, False)
+        var = np.array(p["var"][:qt.num_variables], dtype=np.float64)
+        first = [loss.gradient(var), loss.value(var)]
+        second = [loss.gradient(var), loss.value(var)]
+        return Repeat(first, second)
+    if k == "entropy_helper":
+        from quara.math import entropy
+        qv, pv = get(a[0]), get(a[1])
+        n = min(len(qv), len(pv))
+        qv, pv = qv[:n], pv[:n]        # views of the pool arrays: an in-place helper writes through them
+        which = p["i"] % 4
+        if which == 0:
+            return entropy.round_varz_vector(qv, 1e-10)
+        if which == 1:
+            return entropy.relative_entropy_vector(qv, pv, is_valid_required=False)
+        if which == 2:
+            return entropy.relative_entropy(qv, pv, is_valid_required=False)
+        return entropy.gradient_relative_entropy_2nd_vector(qv, pv, np.eye(n)[:, :2].copy(), is_valid_required=False)
     if k == "make_aopt":
         return build_aopt(p["spec"])
     if k == "atol_set":
@@ -815,6 +850,8 @@ def init_specs(g, tier_quick):
     add("tst", "state", {"kind": "state", "csys": "cA", "arr": qobj.vec_of(cA, qobj.rand_density(g, 2)), "flags": fl()})
     add("qst1", "qt", {"qtkind": "qst", "povms": ["tpx", "tpy", "tpz", "tpt"], "on_para_eq": True})
     add("qst0", "qt", {"qtkind": "qst", "povms": ["tpx", "tpy", "tpz"], "on_para_eq": False})
+    # same testers as qst1 in another order: matrix A of the same shape with other entries
+    add("qst1b", "qt", {"qtkind": "qst", "povms": ["tpz", "tpt", "tpx", "tpy"], "on_para_eq": True})
     add("povmt", "qt", {"qtkind": "povmt", "states": ["tsx", "tsy", "tsz", "tsz1", "tst"], "m": 2,
                         "on_para_eq": bool(g.integers(0, 2))})
     if not tier_quick:
@@ -844,7 +881,7 @@ def init_specs(g, tier_quick):
                                    "scale": float(g.choice([3e-5, 3e-8, 3e-10])), "which": int(g.integers(1, 4))})
     # loss options: one per (class, mode); custom weights (random symmetric positive 2x2 matrices, one per schedule)
     # are per tomography object
-    nsched = {"qst1": 4, "qst0": 3, "povmt": 5, "qpt": 12}
+    nsched = {"qst1": 4, "qst1b": 4, "qst0": 3, "povmt": 5, "qpt": 12}
     for cls, (_, _, modes) in LOSSES.items():
         for mode in modes:
             if mode == "custom":
@@ -859,7 +896,7 @@ def init_specs(g, tier_quick):
         add(f"loss_{cls}", "loss", {"cls": cls})
     for j, (eq, ineq) in enumerate([(True, True), (True, False), (False, True), (False, False)]):
         add(f"ao{j}", "aopt", {"eq": eq, "ineq": ineq, "order": ["eq_ineq", "ineq_eq"][int(g.integers(0, 2))],
-                               "maxit": [30, 20][int(g.integers(0, 2))], "eps": [None, 1e-9][int(g.integers(0, 2))]})
+                               "maxit": [15, 10][int(g.integers(0, 2))], "eps": [None, 1e-9][int(g.integers(0, 2))]})
     add("ao_default", "aopt", {"eq": True, "ineq": True, "order": "eq_ineq", "maxit": 30, "eps": None})
     add("algo0", "algo", {})
     add("algo1", "algo", {})
@@ -1021,7 +1058,19 @@ def gen_op(rng, W, step, atol_changed):
         if atol_changed:
             return {"op": "atol_restore", "args": [], "p": {}}
         return {"op": "atol_set", "args": [], "p": {"atol": rng.choice([1e-6, 1e-9, 1e-3, 1e-11])}}
-    if r < 0.765:
+    if r < 0.775:
+        x = rng.random()
+        # objects created by an earlier operation of this history — except accessor results, which ARE members of a pool
+        # object (`ensemble.state(i)` returns the stored state itself)
+        derived = [i for i in qops if i.startswith("r") and i not in W.accessor_results]
+        if x < 0.45 or not derived:
+            return {"op": "derive_roundtrip", "args": [rng.choice(qops)], "p": p}
+        return {"op": "set_zero", "args": [rng.choice(derived)], "p": p}
+    if r < 0.785:
+        pr = [i for i in by.get("array", []) if e[i].meta.get("role") == "prob"]
+        if len(pr) >= 2:
+            return {"op": "entropy_helper", "args": [rng.choice(pr), rng.choice(pr)], "p": p}
+    if r < 0.80:
         return {"op": "make_aopt", "args": [], "p": {"spec": {"eq": rng.random() < 0.7, "ineq": rng.random() < 0.7,
                                                               "order": "eq_ineq", "maxit": 30, "eps": None}}}
     # tomography / estimation
@@ -1055,6 +1104,9 @@ def gen_op(rng, W, step, atol_changed):
     if x < 0.40:
         lcls = W.fav if rng.random() < 0.75 else rng.choice(sorted(LOSSES))
         mode = rng.choice(LOSSES[lcls][2])
+        if rng.random() < 0.35:
+            return {"op": "loss_repeat", "args": [f"loss_{lcls}", qt, _lopt_id(lcls, mode, qt), rng.choice(datas)],
+                    "p": {"var": var, "mode": mode, "lcls": lcls}}
         return {"op": "loss_eval", "args": [f"loss_{lcls}", qt, _lopt_id(lcls, mode, qt), rng.choice(datas)],
                 "p": {"var": var, "mode": mode, "lcls": lcls}}
     if x < 0.55:
@@ -1127,6 +1179,14 @@ def _exec_history(S, ops, gen, nops, stop_on_first, subst, on_case):
                 pre = {i: copy.copy(W.e[args[i]].obj) for i in STATEFUL[op["op"]].values() if i < len(args)}
             np.random.seed(2000003 + 2 * step)      # … it is reseeded differently before the two evaluations
             rs = call(lambda: run_op(op, getter, W, None))
+            if isinstance(rf, Repeat):
+                rf = rf.first
+                nf = norm(rf, None)
+            if isinstance(rs, Repeat):
+                if not same(norm(rs.first, None), norm(rs.second, None)):
+                    problems.append({"step": step, "kind": "repeat", "op": op, "first": brief(norm(rs.first, None)),
+                                     "second": brief(norm(rs.second, None))})
+                rs = rs.first
             ns = norm(rs.e if isinstance(rs, Raised) else rs, None)
             if op["op"] == "atol_set":
                 atol_changed = True
@@ -1146,6 +1206,8 @@ def _exec_history(S, ops, gen, nops, stop_on_first, subst, on_case):
                         F3 = Fresh(W)
                         g3 = lambda eid, F3=F3, i=i: (copy.copy(pre[i]) if eid == args[i] else F3.get(eid))  # noqa
                         r3 = call(lambda: run_op(op, g3, W, None))
+                        if isinstance(r3, Repeat):
+                            r3 = r3.first
                         if not same(norm(r3.e if isinstance(r3, Raised) else r3, None), nf):
                             carriers.append(role)
                 problems.append({"step": step, "kind": "result", "op": op, "shared": brief(ns), "fresh": brief(nf),
@@ -1156,6 +1218,8 @@ def _exec_history(S, ops, gen, nops, stop_on_first, subst, on_case):
                 rid = op["rid"]
                 if rk:
                     W.add(rid, rk, rs)
+                    if op["op"] == "ensemble_state":
+                        W.accessor_results.add(rid)
                 elif isinstance(rs, np.ndarray) and op["op"] in UNARY and len(UNARY[op["op"]]) > 2:
                     W.add(rid, "array", rs, _var_meta(W.e[args[0]].obj, W))
                 elif isinstance(rs, np.ndarray) and op["op"] in ("proj_eq_with_var", "proj_ineq_with_var"):
@@ -1166,7 +1230,8 @@ def _exec_history(S, ops, gen, nops, stop_on_first, subst, on_case):
                     W.add(rid, "aopt", rs, {"spec": op["p"]["spec"], "birth_atol": Settings.get_atol()})
             # (ii) snapshots of every operand and every earlier-derived object
             new = snapshot(W)
-            changed = [eid for eid, d in snaps.items() if new.get(eid) != d]
+            declared = set(args[:1]) if op["op"] == "set_zero" else set()     # in-place methods change their own object
+            changed = [eid for eid, d in snaps.items() if new.get(eid) != d and eid not in declared]
             if changed:
                 problems.append({"step": step, "kind": "mutation", "op": op,
                                  "changed": [(eid, W.e[eid].kind, eid in args) for eid in changed]})
@@ -1199,6 +1264,9 @@ def signature(S, ran, prob, W):
     name = op["op"]
     if prob["kind"] == "cache":
         return f"C13/cache/{name}/content:{'+'.join(prob['tables'])}"
+    if prob["kind"] == "repeat":
+        cls = type(W.e[op["args"][0]].obj).__name__
+        return f"C13/repeat/{name}/{cls}/{op['p'].get('mode')}/identical-calls-differ"
     if prob["kind"] == "mutation":
         ops_ = [c for c in prob["changed"] if c[2]]
         prim = ops_[0] if ops_ else prob["changed"][0]
@@ -1211,12 +1279,12 @@ def signature(S, ran, prob, W):
             detail = f"/{kinds_of(op, W)}"
         return f"C13/mutation/{name}{detail}/{role}:{prim[1]}"
     # result differs from the fresh evaluation
-    if name in ("estimate", "loss_eval", "algo_proj"):
+    if name in ("estimate", "loss_eval", "loss_repeat", "algo_proj"):
         carriers = prob.get("carriers", [])
         a = op["args"]
         pos = STATEFUL[name]
-        prev = [o for o in ran[:-1] if o["op"] in ("estimate", "loss_eval", "algo_proj")]
-        if "loss" in carriers or (not carriers and name == "loss_eval"):
+        prev = [o for o in ran[:-1] if o["op"] in ("estimate", "loss_eval", "loss_repeat", "algo_proj")]
+        if "loss" in carriers or (not carriers and name in ("loss_eval", "loss_repeat")):
             lid = a[pos["loss"]]
             cls = type(W.e[lid].obj).__name__
             pm = [o["p"].get("mode") for o in prev if lid in o["args"]]
@@ -1324,6 +1392,9 @@ def describe(prob, W):
     if prob["kind"] == "result":
         return (f"{op['op']}({kinds_of(op, W)}) after the history: {prob['shared']}  vs on fresh equal-valued "
                 f"arguments: {prob['fresh']}")
+    if prob["kind"] == "repeat":
+        return (f"{op['op']}({kinds_of(op, W)}): gradient/value evaluated twice on one configured loss object: "
+                f"{prob['first']}  then {prob['second']}")
     if prob["kind"] == "mutation":
         return f"{op['op']}({kinds_of(op, W)}) changed {[(e, k, 'operand' if o else 'other') for e, k, o in prob['changed']]}"
     return f"{op['op']}: built cache tables {prob['tables']} differ from the pure tables"
@@ -1574,10 +1645,79 @@ def experiment_copy_clause(ctx):
                             {"kind": "expcopy", "experiment": name, "list": lst})
 
 
+def estimator_reuse_clause(ctx):
+    """one estimator object used with tomography a, then b (same testers in another schedule order: matrix A of the same
+    shape, other entries), then a again — every estimate equals the one of a fresh estimator"""
+    g = ctx.npgen("estreuse")
+    c = qobj.csys("qubit")
+    for t in range(3 if ctx.quick else 12):
+        povms = [qobj.rand_povm(g, c, 2) for _ in range(int(g.integers(3, 5)))]
+        perm = list(g.permutation(len(povms)))
+        if perm == sorted(perm):
+            perm = perm[1:] + perm[:1]
+        para = bool(g.integers(0, 2))
+        qa = StandardQst(povms, on_para_eq_constraint=para, schedules="all")
+        qb = StandardQst([povms[i] for i in perm], on_para_eq_constraint=para, schedules="all")
+
+        def data(qt):
+            out = []
+            for _ in range(qt.num_schedules):
+                k = int(g.integers(3, 40)); n = k + int(g.integers(3, 40))
+                out.append((n, np.array([k / n, 1 - k / n])))
+            return out
+        seq = [(qa, data(qa)), (qb, data(qb)), (qa, data(qa))]
+        for name, mk in (("LinearEstimator", LinearEstimator), ("ProjectedLinearEstimator", ProjectedLinearEstimator)):
+            used = mk()
+            ctx.case(("estreuse", t, name), sample={"clause": "estimator a-b-a", "estimator": name, "testers": len(povms)})
+            ctx.count("estimator re-use a-b-a")
+            for k, (qt, d) in enumerate(seq):
+                with contextlib.redirect_stdout(io.StringIO()):
+                    x = used.calc_estimate(qt, d).estimated_var
+                    y = mk().calc_estimate(qt, d).estimated_var
+                if not np.allclose(x, y, rtol=0, atol=1e-10):
+                    ctx.violate(f"C13/reuse/estimator/{name}/tomography-changed",
+                                f"{name} re-used over tomographies a, b (testers permuted {perm}), a: estimate {k} is "
+                                f"{np.round(x, 6).tolist()}, a fresh estimator gives {np.round(y, 6).tolist()}",
+                                {"kind": "estreuse", "seed": ctx.seed})
+                    break
+
+
+def inplace_clause(ctx):
+    """in-place methods change their own object only: after `derived = o.generate_from_var(o.to_var())`,
+    `derived.set_zero()` leaves `o` and the arrays obtained from `o` earlier as they were"""
+    g = ctx.npgen("inplace")
+    c = qobj.csys("qubit")
+    for flag in (True, False):
+        objs = {"State": State(c, qobj.vec_of(c, qobj.rand_density(g, 2)), on_para_eq_constraint=flag),
+                "Povm": Povm(c, list(qobj.rand_povm(g, c, 3).vecs), on_para_eq_constraint=flag),
+                "Gate": Gate(c, qobj.rand_gate(g, c).hs.copy(), on_para_eq_constraint=flag),
+                "MProcess": MProcess(c, [h.copy() for h in qobj.rand_mprocess(g, c, 2)[0].hss], on_para_eq_constraint=flag)}
+        for name, o in objs.items():
+            for route in ("to_var", "to_stacked_vector"):
+                arr = getattr(o, route)()
+                try:
+                    derived = o.generate_from_var(o.to_var())
+                except Exception:  # noqa
+                    continue
+                before = (fast_digest(o), fast_digest(arr))
+                derived.set_zero()
+                after = (fast_digest(o), fast_digest(arr))
+                ctx.case(("inplace", name, flag, route), sample={"clause": "set_zero on a derived object", "type": name, "para": flag})
+                ctx.count("in-place method checks")
+                if before != after:
+                    what = "the original object" if before[0] != after[0] else f"the array returned earlier by {route}()"
+                    ctx.violate(f"C13/mutation/set_zero/{name}/on_para_eq_constraint={flag}/other-object-changed",
+                                f"derived = o.generate_from_var(o.to_var()); derived.set_zero() changed {what}",
+                                {"kind": "inplace", "type": name, "para": flag})
+                    break
+
+
 def oracle(ctx, volume=1):
     seen = set()
     basis_clause(ctx)
     experiment_copy_clause(ctx)
+    estimator_reuse_clause(ctx)
+    inplace_clause(ctx)
     sequence_clause(ctx, volume)
     nhist, nops = ((300, 12) if ctx.quick else (3000, 30))
     workers = 1 if ctx.quick else max(1, min(12, (os.cpu_count() or 2) - 2))
@@ -1885,8 +2025,12 @@ def replay(ctx, data):
             print(f"  PROBLEM: entry {k} of the sequence {a}  vs fresh objects on that dataset alone {b}")
         return 1 if bad else 0
     before = len(ctx.violations)
+    if "seed" in r:
+        ctx.seed = r["seed"]
     basis_clause(ctx)
     experiment_copy_clause(ctx)
+    estimator_reuse_clause(ctx)
+    inplace_clause(ctx)
     for v in ctx.violations[before:]:
         print("  PROBLEM:", v["signature"], v["what"])
     return 1 if any(v["signature"] == data.get("signature") for v in ctx.violations[before:]) else 0
